@@ -40,6 +40,12 @@ fn main() {
             let m = serde_json::to_string(&o.matrix).unwrap();
             eprintln!("MATRIX {}", m);
         }
+        "iso-sweep" => {
+            let mut log = Log::to_path(&out);
+            let mut o = algos::Out { log: &mut log, matrix: Default::default() };
+            algos::c13_sweep(seed, args.num("pairs", 300) as usize, &mut o);
+            eprintln!("MATRIX {}", serde_json::to_string(&o.matrix).unwrap());
+        }
         "algo-replay" => {
             let mut log = Log::to_path(&out);
             let mut o = algos::Out { log: &mut log, matrix: Default::default() };
